@@ -27,6 +27,8 @@ type HarnessCfg struct {
 	Covers    []string `json:"covers"` // cover labels that must be reached
 	Note      string `json:"note"`
 	TimeoutS  int    `json:"timeout_s"`
+	Witnesses int    `json:"witnesses"` // path witnesses to validate natively
+	CrossSkip string `json:"cross_skip"` // solvers to skip in the thorough cross-check
 
 	stubs        map[string]*ssa.Function
 	growMonitors []func(ex *Exec, n *Term)
@@ -52,6 +54,8 @@ type RunResult struct {
 	Threads      int
 	MaxThreads   int
 	SolverErrors int
+	Witnesses    []map[string]interface{}
+	witnessAsked int
 }
 
 type workItem struct{ prefix []int }
@@ -127,10 +131,20 @@ func Explore(P *Program, cfg *HarnessCfg, nWorkers int, solverKind string, timeo
 				active++
 				mu.Unlock()
 
-				pr := runOnePath(P, cfg, entry, solver, it.prefix)
+				wantW := false
+				mu.Lock()
+				if res.witnessAsked < cfg.Witnesses {
+					res.witnessAsked++
+					wantW = true
+				}
+				mu.Unlock()
+				pr := runOnePath(P, cfg, entry, solver, it.prefix, wantW)
 
 				mu.Lock()
 				active--
+				if wantW && pr.witness == nil {
+					res.witnessAsked--
+				}
 				for _, a := range pr.alts {
 					work = append(work, workItem{a})
 				}
@@ -149,6 +163,11 @@ func Explore(P *Program, cfg *HarnessCfg, nWorkers int, solverKind string, timeo
 					res.Paths++
 					for _, l := range pr.covers {
 						res.Covers[l]++
+					}
+					if pr.witness != nil {
+						if _, bad := pr.witness["_error"]; !bad {
+							res.Witnesses = append(res.Witnesses, pr.witness)
+						}
 					}
 					if len(res.SamplePaths) < 5 {
 						res.SamplePaths = append(res.SamplePaths, pr.sample)
@@ -236,15 +255,16 @@ type pathResult struct {
 	funcs       map[string]int
 	sample      string
 	nthreads    int
+	witness     map[string]interface{}
 }
 
-func runOnePath(P *Program, cfg *HarnessCfg, entry *ssa.Function, solver *Solver, prefix []int) (pr pathResult) {
+func runOnePath(P *Program, cfg *HarnessCfg, entry *ssa.Function, solver *Solver, prefix []int, wantWitness bool) (pr pathResult) {
 	ex := &Exec{
 		P: P, ctx: NewCtx(), solver: solver, cfg: cfg, entry: entry, prefix: prefix,
 		globals: map[*ssa.Global]*Object{}, mutexes: map[string]*MutexState{},
 		tagCount: map[string]int{}, covers: map[string]bool{}, fnsSeen: map[*ssa.Function]int{},
 		pools: map[string][]Value{}, idxMemo: map[string]*Term{}, maxOf: map[*Object]int{},
-		timerObjs: map[*Object]*Timer{}, lockViol: map[string]bool{},
+		timerObjs: map[*Object]*Timer{}, lockViol: map[string]bool{}, unsatCache: map[uint32]bool{},
 	}
 	solver.Reset()
 	defer func() {
@@ -297,6 +317,9 @@ func runOnePath(P *Program, cfg *HarnessCfg, entry *ssa.Function, solver *Solver
 	ex.steps = 0
 	ex.pushFrame(main, entry, nil, nil, nil)
 	ex.run()
+	if wantWitness {
+		pr.witness = ex.model(ex.ctx.True)
+	}
 	pr.end = pathEnd{"done", ""}
 	return
 }
